@@ -4,6 +4,7 @@ import (
 	"fmt"
 	"os"
 	"path/filepath"
+	"regexp"
 	"strings"
 
 	"nvharness/lib/gofacts"
@@ -76,6 +77,18 @@ func extract(repo, leanDir string) {
 		gofacts.Has(wm.Body("", "newWideSemMap"), "for i := uint64(0); i < numbs; i++ { w.ms[i] = newSemMap(rwRatio) }") &&
 		gofacts.Has(wm.Body("", "newWideSemMap"), "if useXHash { w.calKeyFn = w.rehash.XHashIndex } else { w.calKeyFn = w.rehash.SimpleIndex }")
 
+	// ---- the default ratio (NewSemMap() without WithRwRatio): a literal constant used as RangeOption's initial value
+	defRatio := 0
+	opt := gofacts.MustLoad(repo, "syncx/semap/option.go")
+	optSrc := opt.Src(opt.AST)
+	if m := regexp.MustCompile(`const \( DefaultRWRatio = (\d{1,6}) \)|const DefaultRWRatio = (\d{1,6})\b`).FindStringSubmatch(optSrc); m != nil &&
+		gofacts.Has(opt.Body("", "RangeOption"), "var o = &_Option{ rwRatio: DefaultRWRatio, }") &&
+		gofacts.Has(mp.Body("", "NewSemMap"), "var o = RangeOption(opts...) return newSemMap(o.rwRatio)") &&
+		gofacts.Has(wm.Body("", "NewWideSemMap"), "var o = RangeOption(opts...) return newWideSemMap(o.rwRatio, o.prime, false)") &&
+		gofacts.Has(wm.Body("", "NewWideXHashSemMap"), "var o = RangeOption(opts...) return newWideSemMap(o.rwRatio, o.prime, true)") {
+		fmt.Sscanf(m[1]+m[2], "%d", &defRatio)
+	}
+
 	facts := []bool{acquireLocksFirst, createsUnderLock, fast, doomed, enqueue, cancelRelocks, prefersReady, renotify,
 		relSub, headOnly, relLocked, readOne, writeRatio, wide}
 	names := []string{"acquireLocksFirst", "createsUnderLock", "fastPathNeedsNoWaiters", "doomedBranch", "enqueueBack",
@@ -90,15 +103,17 @@ func extract(repo, leanDir string) {
 	}
 	out := fmt.Sprintf(`import Nv.Model.C01
 set_option linter.unusedVariables false
-/-! GENERATED by `+"`c01 extract`"+` from syncx/semap/{semaphore,map,wmap}.go — do not edit. -/
+/-! GENERATED by `+"`c01 extract`"+` from syncx/semap/{semaphore,map,wmap,option}.go — do not edit. -/
 namespace Nv.Gen.C01
 def cfg : Nv.C01.Cfg := ⟨.%s⟩
 def facts : Nv.C01.Facts := ⟨%s⟩
+/-- DefaultRWRatio (0 = not found / not a literal) -/
+def defaultRatio : Nat := %d
 end Nv.Gen.C01
-`, guard, strings.Join(fs, ", "))
+`, guard, strings.Join(fs, ", "), defRatio)
 	if err := gofacts.WriteIfChanged(filepath.Join(leanDir, "Nv/Gen/C01.lean"), out); err != nil {
 		fmt.Fprintln(os.Stderr, err)
 		os.Exit(2)
 	}
-	fmt.Printf("extract C01: guard=%s facts-not-as-expected=%v\n", guard, off)
+	fmt.Printf("extract C01: guard=%s defaultRatio=%d facts-not-as-expected=%v\n", guard, defRatio, off)
 }
